@@ -1303,13 +1303,32 @@ var vtACSNames = map[byte]rune{
 func (t *tScreen) buildAcsMap() {
 	acsstr := t.ti.AltChars
 	t.acs = make(map[rune]string)
+	// The enter/exit strings become part of the cell text, which is
+	// written verbatim (no padding expansion), so drop any $<..> padding.
+	enterAcs := stripPadding(t.ti.EnterAcs)
+	exitAcs := stripPadding(t.ti.ExitAcs)
 	for len(acsstr) >= 2 {
 		srcv := acsstr[0]
 		dstv := acsstr[1:2] // the byte itself, not the UTF-8 encoding of its value
 		if r, ok := vtACSNames[srcv]; ok {
-			t.acs[r] = t.ti.EnterAcs + dstv + t.ti.ExitAcs
+			t.acs[r] = enterAcs + dstv + exitAcs
 		}
 		acsstr = acsstr[2:]
+	}
+}
+
+// stripPadding removes terminfo padding specifications ($<..>) from s.
+func stripPadding(s string) string {
+	for {
+		beg := strings.Index(s, "$<")
+		if beg < 0 {
+			return s
+		}
+		end := strings.Index(s[beg:], ">")
+		if end < 0 {
+			return s
+		}
+		s = s[:beg] + s[beg+end+1:]
 	}
 }
 
